@@ -505,6 +505,39 @@ def rule_stream_cursor(ctx):
                     "middle of that dimension restarts it on the next call" % (fld, fld), fn=f)
 
 
+def rule_int_fastpath(ctx):
+    """the integer copy shortcut of the u8 / u16 writers is taken for integer samples only"""
+    rid = "R-INT-FASTPATH"
+    ctx.rule(rid, "<u8 / u16 as Sealed>::copy_from_grid copy an integer grid sample straight into the output when the channel's depth is "
+                  "exactly the output's (8 / 16 bit integer samples).  A float-sample channel of 8 or 16 bits stores the float's bit "
+                  "pattern in the integer grid, so the shortcut must be decided by the *variant* of BitDepth: the function (or a "
+                  "helper of this crate) reads the discriminant of a BitDepth value.  A test on bits_per_sample() alone, which both "
+                  "variants answer, clamps a half-float's bit pattern as if it were a sample")
+    ox = ctx.prog.crate("jxl_oxide")
+    n = 0
+    for f in ox.fn_list:
+        if f.kind == "Promoted" or not f.path.endswith("::copy_from_grid") or not ("<u8 as" in f.path or "<u16 as" in f.path):
+            continue
+        n += 1
+        ctx.seen(f)
+        fam = [f] + [ox.fns[c["fn"]] for _, t in f.calls() for c in [callee(t)] if c and c["fn"] in ox.fns]
+        has = False
+        for g in fam:
+            for blk in g.blocks:
+                if blk[2]:
+                    continue
+                for st in blk[0]:
+                    if st[0] == "=" and st[2][0] == "discr" and "BitDepth" in g.local_ty(st[2][1][0]):
+                        has = True
+        if has:
+            ctx.ok(rid, "variant-tested:" + f.path, "the shortcut is decided by the BitDepth variant", nontrivial=True, fn=f)
+        else:
+            ctx.bad(rid, "variant-not-tested:" + f.path, "copy_from_grid takes its integer shortcut without looking at the BitDepth variant: a "
+                    "float-sample channel of the same width is copied as if its bit patterns were integers", fn=f)
+    ctx.count(rid + ".writers", n)
+    ctx.floor(rid + ".writers", 2)
+
+
 def rule_narrowcast(ctx):
     """integer samples written to a u8 / u16 output saturate: no truncating cast of an unbounded value"""
     from .. import intervals as IV
@@ -555,6 +588,7 @@ def main(pid, tier, repo=None):
     rule_orient_order(ctx)
     rule_narrowcast(ctx)
     rule_stream_cursor(ctx)
+    rule_int_fastpath(ctx)
     from . import c05
     c05.rule_orient_scope(ctx)        # the orientation is applied at the API boundary only
     ctx.not_decided("float->integer rounding; sample-by-sample equality between interleaved, planar and stream outputs")
